@@ -66,6 +66,9 @@ struct HShared { typedef Shared<Tracked> H; static H make() { return H(new Track
 struct HSharedA { typedef Shared<Tracked> H; static H make() { H h; h = new Tracked(9); return h; } static bool read(const H& h) { return h->ok() && h->v == 9; } static const char* name() { return "Shared<Tracked> filled by assigning a pointer"; } };
 struct HArrBig { typedef Array<Tracked> H; static H make() { H a; for (int i = 0; i < 3000; i++) a << Tracked(i % 100); return a; } static bool read(const H& h) { return h.length() == 3000 && h[0].ok() && h[2999].ok(); } static const char* name() { return "Array<Tracked> of 3000 elements"; } };
 struct HSharedNull { typedef Shared<Tracked> H; static H make() { return H((Tracked*)0); } static bool read(const H&) { return true; } static const char* name() { return "Shared<Tracked> built from a null pointer"; } };
+// handles of a derived type, assigned through a base-typed handle (converting constructor and converting assignment of Shared)
+struct TrackedD : Tracked { TrackedD(int x) : Tracked(x) {} };
+struct HSharedConv { typedef Shared<TrackedD> H; static H make() { return H(new TrackedD(9)); } static bool read(const H& h) { return h->ok() && h->v == 9; } static const char* name() { return "Shared<Derived> assigned through Shared<Base> handles"; } };
 struct HSmartBase { typedef SmartObject H; static H make() { return SmartObject(); } static bool read(const H& h) { return h._p != 0; } static const char* name() { return "plain SmartObject (default-constructed)"; } };
 struct HSmart { typedef Thing H; static H make() { return Thing(); } static bool read(const H& h) { return h.ok(); } static const char* name() { return "SmartObject class"; } };
 
@@ -90,6 +93,13 @@ template<> struct CloneOf<HSmartBase> { static SmartObject get(const SmartObject
 template<> struct EmptyOf<HSmartBase> { static SmartObject get() { return SmartObject((SmartObject_*)0); } };
 template<> struct CloneOf<HShared> { static Shared<Tracked> get(const Shared<Tracked>& h) { return Shared<Tracked>(new Tracked(*h)); } };
 
+template<> struct DupOf<HSharedConv> { static void apply(Shared<TrackedD>&) {} };
+template<> struct CloneOf<HSharedConv> { static Shared<TrackedD> get(const Shared<TrackedD>& h) { return Shared<TrackedD>(new TrackedD(*h)); } };
+// assignment: plain for every kind; for HSharedConv additionally through a base-typed handle that already shares the target's object
+// (mostly the very object the source holds). The base handle is never the last one: dst and src outlive it.
+template<class K> struct AssignOf { static void apply(typename K::H& dst, const typename K::H& src) { dst = src; } };
+template<> struct AssignOf<HSharedConv> { static void apply(Shared<TrackedD>& dst, const Shared<TrackedD>& src) { Shared<Tracked> base(dst); base = src; dst = src; } };
+
 // a thread's program over its own handles (it always keeps its seed handle until the end)
 template<class K>
 static void runProgram(const typename K::H& seedHandle, const std::vector<int>& prog, std::atomic<int>* badRead)
@@ -107,7 +117,7 @@ static void runProgram(const typename K::H& seedHandle, const std::vector<int>& 
 #endif
 		switch (op) {
 		case OP_COPY: own.push_back(new H(*own[arg % own.size()])); break;
-		case OP_ASSIGN: { size_t a = arg % own.size(), b = (arg / 7) % own.size(); if (a != b) *own[a] = *own[b]; break; }
+		case OP_ASSIGN: { size_t a = arg % own.size(), b = (arg / 7) % own.size(); if (a != b) AssignOf<K>::apply(*own[a], *own[b]); break; }
 		case OP_DROP: if (own.size() > 1) { delete own.back(); own.pop_back(); } break;
 		case OP_READ: if (!K::read(*own[arg % own.size()])) (*badRead)++; break;
 		case OP_REACQUIRE: if (own.size() > 1) { delete own.back(); own.back() = new H(seedHandle); } break;
@@ -190,7 +200,8 @@ static void serialCase(vf::Ctx& c)
 
 static void mode_serial(vf::Ctx& c)
 {
-	switch (c.idx % 12) {
+	switch (c.idx % 13) {
+	case 12: serialCase<HSharedConv>(c); break;
 	case 11: serialCase<HSharedNull>(c); break;
 	case 10: serialCase<HSmartBase>(c); break;
 	case 8: serialCase<HSharedA>(c); break;
@@ -334,7 +345,12 @@ static void mode_dup_race(vf::Ctx& c)
 
 static void mode_stress(vf::Ctx& c)
 {
-	switch (c.idx % 12) {
+	switch (c.idx % 13) {
+#if defined(__SANITIZE_THREAD__)
+	case 12: stressCase<HShared>(c); break;   // the converting copy writes the (unchanged) object pointer back into the shared count block: a formal race, asan/plain only
+#else
+	case 12: stressCase<HSharedConv>(c); break;
+#endif
 	case 11: stressCase<HSharedNull>(c); break;
 	case 10: stressCase<HSmartBase>(c); break;
 	case 8: stressCase<HSharedA>(c); break;
